@@ -1,13 +1,20 @@
 #!/bin/bash
-# Runs every mutant of mutants/INDEX.tsv (or those matching $1) through the repository's own
-# tests and the quick checks of the properties it is expected to trip; appends to mutants/RESULTS.tsv
+# Runs every mutant of mutants/INDEX.tsv (or those matching $1) through the repository's own tests and the
+# quick checks of the properties it is expected to trip, on the separate worktree /tmp/wt/sweeprepo
+# (never /repo); writes mutants/RESULTS.tsv
 cd /verif
+export GOFLAGS=-mod=mod GOPROXY=off GOSUMDB=off GOTOOLCHAIN=local
 pat="${1:-.}"
+wt=/tmp/wt/sweeprepo
+[ -d $wt ] || git -C /repo worktree add -q --detach $wt HEAD
+: > mutants/RESULTS.tsv
 while IFS=$'\t' read -r mid props note; do
   echo "$mid" | grep -qE "$pat" || continue
   [ -z "$props" ] && props="C01 C02 C09 C11 C12"
-  out="$(VERIF_C03_SOURCE_ONLY=1 tools/mutant.sh mutants/$mid.diff $props 2>&1)"
-  tests=$(echo "$out" | grep -o "repo tests: [A-Z]*" | head -1)
-  res=$(echo "$out" | grep "^== " | sed 's/^== //' | tr '\n' ';')
+  git -C $wt checkout -q -- . ; git -C $wt clean -fdq
+  git -C $wt apply mutants/$mid.diff || { echo "$mid PATCH-DOES-NOT-APPLY"; continue; }
+  if (cd $wt && go test -vet=off -count=1 ./... >/dev/null 2>&1); then tests="suite:PASS"; else tests="suite:FAIL"; fi
+  git -C $wt checkout -q -- .
+  res="$(VERIF_C03_SOURCE_ONLY=1 tools/seedcheck.sh mutants/$mid.diff $props 2>&1 | grep '^== ' | sed 's/^== //' | tr '\n' ';')"
   printf "%s\t%s\t%s\t%s\n" "$mid" "$tests" "$res" "$note" | tee -a mutants/RESULTS.tsv
 done < mutants/INDEX.tsv
